@@ -3,7 +3,7 @@
    runner and by vm_compute inside Coq (Cases_*.v). *)
 From Coq Require Import List NArith ZArith Bool String.
 From Coq.Strings Require Import Byte.
-From OAP Require Import Base.Bytes Base.Res Base.Text Gen.Consts Model.Handshake Model.Metadata Model.Header Model.Frame Model.Stream Model.World Model.Ids.
+From OAP Require Import Base.Bytes Base.Res Base.Text Gen.Consts Model.Handshake Model.Metadata Model.Header Model.Frame Model.Stream Model.World Model.Ids Model.Waiters.
 Import ListNotations.
 Local Open Scope N_scope.
 
@@ -310,7 +310,7 @@ Definition run_st (op : bytes) (args0 : list bytes) : bytes :=
         match undec codec, omap_all undec (split_on ","%byte vers), omap_all parse_op ops with
         | Some codec, Some vs, Some ops =>
             let w0 := mkW (map (fun v => (v, mkS None [])) vs) hdr0 in
-            match run gz codec w0 ops with
+            match World.run gz codec w0 ops with
             | Some (_, rs) => join (str " ; ") (map result_s rs)
             | None => bad
             end
@@ -351,7 +351,7 @@ Definition parse_call (b : bytes) : option call :=
   match split_on "~"%byte b with
   | [c; ct; cmd; opts] =>
       obind (undec c) (fun c => obind (parse_ctor ct) (fun ct => obind (undec cmd) (fun cmd =>
-        obind (parse_opts opts) (fun opts => Some (mkCall (N.to_nat c) ct cmd opts)))))
+        obind (parse_opts opts) (fun opts => Some (Ids.mkCall (N.to_nat c) ct cmd opts)))))
   | _ => None
   end.
 Definition meta_id_s (m : meta) : bytes :=
@@ -366,6 +366,74 @@ Definition run_id (op : bytes) (args : list bytes) : bytes :=
     | _ => bad end
   else bad.
 
+(* ---- waiters (C05/C07) ----
+   wt.run <event> ... [perr:<bodyhex>=<code>.<msghex> | perr:<bodyhex>=-]
+   events: S start | R<k> register | W<k>.<0|1> write | F<k> take | T<k> deadline | X sweep
+           D.<type>.<cmd>.<rid>.<status>.<bodyhex> dispatch
+   output: one result per call joined by " ; " then " | nr=<n> dup=<n> unsup=<n>" *)
+Definition parse_perr (w : bytes) : option (bytes * option (N * bytes)) :=
+  if starts_with (str "perr:") w then
+    obind (split_eq (skipn 5 w)) (fun ac =>
+      obind (unhex (fst ac)) (fun body =>
+        if bytes_eqb (snd ac) (str "-") then Some (body, None)
+        else match split_on "."%byte (snd ac) with
+             | [c; m] => obind (undec c) (fun c => obind (unhex m) (fun m => Some (body, Some (c, m))))
+             | _ => None end))
+  else None.
+Definition mk_perr (ws : list bytes) : perr_oracle :=
+  let tbl := filter_map parse_perr ws in
+  fun body => match assoc_bytes body tbl with Some r => r | None => None end.
+
+Definition parse_wact (e : bytes) : option wact :=
+  match e with
+  | k :: rest =>
+      if byte_eqb k "S"%byte then Some AStart
+      else if byte_eqb k "X"%byte then Some ASweep
+      else if byte_eqb k "R"%byte then option_map (fun n => ARegister (N.to_nat n)) (undec rest)
+      else if byte_eqb k "F"%byte then option_map (fun n => AFinish (N.to_nat n) FTake) (undec rest)
+      else if byte_eqb k "T"%byte then option_map (fun n => AFinish (N.to_nat n) FDeadline) (undec rest)
+      else if byte_eqb k "W"%byte then
+        match split_on "."%byte rest with
+        | [n; ok] => obind (undec n) (fun n => obind (unbool ok) (fun ok => Some (AWrite (N.to_nat n) ok)))
+        | _ => None end
+      else if byte_eqb k "D"%byte then
+        match split_on "."%byte rest with
+        | [_; _; ty; cmd; rid; st; body] =>
+            match undec ty, undec cmd, undec rid, undec st, unhex body with
+            | Some ty, Some cmd, Some rid, Some st, Some body => Some (ADispatch (mkWpkt (ptype_of_n ty) cmd rid st body))
+            | _, _, _, _, _ => None end
+        | _ => None end
+      else None
+  | [] => None
+  end.
+
+Definition wres_s (c : wcall) : bytes :=
+  match wc_st c with
+  | CDone (WResp p) => str "RESP " ++ dec (w_rid p) ++ sp ++ dec (w_status p) ++ sp ++ hex (w_body p)
+  | CDone (WLBErr st code msg) => str "LBERR " ++ dec st ++ sp ++ dec code ++ sp ++ hex msg
+  | CDone WTimeout => str "TIMEOUT"
+  | CDone WLost => str "ERR"
+  | CDone WWriteErr => str "ERR"
+  | _ => str "PENDING"
+  end.
+
+Definition is_perr (w : bytes) : bool := starts_with (str "perr:") w.
+Definition run_wt (op : bytes) (args0 : list bytes) : bytes :=
+  let pe := mk_perr (filter is_perr args0) in
+  let args := filter (fun w => negb (is_perr w)) args0 in
+  if bytes_eqb op (str "wt.run") then
+    match omap_all parse_wact args with
+    | Some acts =>
+        let s := Waiters.run pe acts in
+        let cnt f := decn (List.length (filter f (ws_log s))) in
+        join (str " ; ") (map wres_s (ws_calls s)) ++ str " | nr=" ++
+          cnt (fun l => match l with LNoReceiver _ => true | _ => false end) ++ str " dup=" ++
+          cnt (fun l => match l with LDuplicate _ => true | _ => false end) ++ str " unsup=" ++
+          cnt (fun l => match l with LUnsupportedRequest _ => true | _ => false end)
+    | None => bad
+    end
+  else bad.
+
 Definition run_line (line : bytes) : bytes :=
   match words line with
   | op :: args =>
@@ -374,6 +442,7 @@ Definition run_line (line : bytes) : bytes :=
       else if starts_with (str "fr.") op || starts_with (str "gz.") op then run_fr op args
       else if starts_with (str "st.") op then run_st op args
       else if starts_with (str "id.") op then run_id op args
+      else if starts_with (str "wt.") op then run_wt op args
       else bad
   | [] => bad
   end.
